@@ -6,7 +6,8 @@
 //
 // stdin:  {"constraints": [int...]}
 // stdout: {"base": sql, "versionFilter": sql, "kindMarker": .., "cpe": text of the distribution CPE,
-//          "constraints": [{"c": int, "sql": .., "err": .., "noDist": "ok|err|panic", "noRepo": ..}]}
+//
+//	"constraints": [{"c": int, "sql": .., "err": .., "noDist": "ok|err|panic", "noRepo": ..}]}
 package main
 
 import (
